@@ -7,9 +7,12 @@ Local Open Scope Z_scope.
 Definition res_code (r : res) : Z :=
   match r with ROk => 0 | ROom => 1 | RInvalidSize => 2 | RTypeErr => 3 | RPanic => 5 | RAbort => 6 end.
 
-Inductive hop := OArray (esz : N) | OVecPush (esz : N) | OVecReserve (esz : N) | OManual | OManualReuse | OBytes
+Inductive hop := OArray (esz : N) | OVecPush (esz : N) | OVecReserve (esz : N) | OVecFill (esz : N) (r : Z)
+               | OManual | OManualReuse | OBytes
                | ORepeat (slen : N) | OPad (schars sbytes pb : N)
-               | OConcatDouble (slen : N).
+               | OProductSq (unit : N)       (* a = u.repeat(n) (unit bytes each); b = "b".repeat(n); r of n * n bytes *)
+               | OConcatDouble (slen : N)
+               | OLoop (allocs : list (N * bool)).
 
 (* a = alloc(n); free(a); b = alloc(n); c = alloc(n): the second allocation reuses the freed slot of the first *)
 Definition manual_reuse (m : mem) (n : Z) : res * mem :=
@@ -22,29 +25,128 @@ Definition manual_reuse (m : mem) (n : Z) : res * mem :=
       end
   | (r, m1, _) => (r, m1)
   end.
-(* n pushes with the count in N (up to a few million for Vec<Bool> near the limit): positive-recursion iterator *)
+
+(* three results whose lengths are checked before they are built: unit*n, n, n*n bytes (string.replace / string.join
+   on two strings of n pieces); n <= 0: the empty string; n = 1: every result is a string that already exists *)
+Definition product_sq (cap : N) (m : mem) (unit : N) (n : Z) : res * mem :=
+  if (n <=? 0)%Z then let '(r, m', _) := op_string m 0 in (r, m')
+  else if (n =? 1)%Z then (ROk, m)
+  else let k := Z.to_N n in
+       match op_string_checked cap m (unit * k) with
+       | (ROk, m1, _) =>
+           match op_string_checked cap m1 k with
+           | (ROk, m2, _) => let '(r, m3, _) := op_string_checked cap m2 (k * k) in (r, m3)
+           | (r, m2, _) => (r, m2)
+           end
+       | (r, m1, _) => (r, m1)
+       end.
+
+(* ---- n pushes.  push_many_n replays every push (the definition the theorems talk about); push_fast jumps over
+   the pushes that fit the current capacity and is proved equal to it (Proofs: push_fast_correct) *)
+Definition push_step (cap : N) (st : res * mem * vecst) : res * mem * vecst :=
+  let '(r, m', v') := st in
+  match r with
+  | ROk => let '(r2, m2, v2, _) := op_vec_push cap m' v' in (r2, m2, v2)
+  | _ => st
+  end.
 Definition push_many_n (n : N) (cap : N) (m : mem) (v : vecst) : res * mem * vecst :=
-  N.iter n (fun st => let '(r, m', v') := st in
-                      match r with
-                      | ROk => let '(r2, m2, v2, _) := op_vec_push cap m' v' in (r2, m2, v2)
-                      | _ => st
-                      end) (ROk, m, v).
+  N.iter n (push_step cap) (ROk, m, v).
+Definition push_jump (v : vecst) (k : N) : vecst := mkVec (vlen v + k) (vcap v) (vcharged v) (velem v).
+Definition fast_step (cap : N) (st : N * (res * mem * vecst)) : N * (res * mem * vecst) :=
+  let '(n, (r, m, v)) := st in
+  match r with
+  | ROk =>
+      if (n =? 0)%N then st
+      else if (vlen v <? vcap v)%N then let k := N.min n (vcap v - vlen v) in ((n - k)%N, (ROk, m, push_jump v k))
+      else ((n - 1)%N, push_step cap (ROk, m, v))
+  | _ => (0%N, (r, m, v))
+  end.
+(* bound = number of jumps / growth steps allowed; the first component of the result is what is left to push *)
+Definition push_fast (bound n cap : N) (m : mem) (v : vecst) : N * (res * mem * vecst) :=
+  N.iter bound (fast_step cap) (n, (ROk, m, v)).
+Definition PUSH_BOUND : N := 400000.
+
+(* ---- loops of guarded allocations that keep everything they allocate (closures, vec literals): per iteration
+   the listed requests (ensure; charge unless marked as a second check) in order, then one push on the 8-byte `keep` vec.  The collector may run
+   at the safepoints inside, but everything is live: collection does not change the accounting. *)
+(* a request is (bytes, charged): alloc_vec / alloc_array consult the limit twice (their own check and alloc_object's)
+   but charge once *)
+Fixpoint alloc_seq (m : mem) (l : list (N * bool)) : res * mem :=
+  match l with
+  | [] => (ROk, m)
+  | (a, charged) :: r => if ensure m a then alloc_seq (if charged then add_heap m a else m) r else (ROom, m)
+  end.
+Definition loop_step (cap : N) (allocs : list (N * bool)) (st : res * mem * vecst) : res * mem * vecst :=
+  let '(r, m, v) := st in
+  match r with
+  | ROk => match alloc_seq m allocs with
+           | (ROk, m1) => push_step cap (ROk, m1, v)
+           | (r1, m1) => (r1, m1, v)
+           end
+  | _ => st
+  end.
+Definition loop_run (n cap : N) (allocs : list (N * bool)) (m : mem) (v : vecst) : res * mem * vecst :=
+  N.iter n (loop_step cap allocs) (ROk, m, v).
+
+(* ---- s = s + s, n times, WITH the collector: string `+` is a safepoint; maybe_collect runs a collection when the
+   managed heap has reached next_gc, which frees the strings that are no longer referenced (the earlier values
+   of s) and sets next_gc := max (2 * heap, INITIAL_GC_THRESHOLD).  State: memory, garbage bytes, size of the
+   string s currently refers to (0 while it still is the permanent global), next_gc, length of s. *)
+Record cst := mkC { c_mem : mem; c_garbage : N; c_cur : N; c_next : N; c_len : N }.
+Definition concat_step (st : res * cst) : res * cst :=
+  let '(r, c) := st in
+  match r with
+  | ROk =>
+      let m := c_mem c in
+      (* maybe_collect *)
+      let '(m1, g1, nx1) :=
+        if (c_next c <=? heap m)%N
+        then let h := (heap m - c_garbage c)%N in (mkMem h (manual m) (maxb m), 0%N, N.max (2 * h) INITIAL_GC_THRESHOLD)
+        else (m, c_garbage c, c_next c) in
+      let size := (SZ_STRING + 2 * c_len c)%N in
+      if ensure m1 size then (ROk, mkC (add_heap m1 size) (g1 + c_cur c) size nx1 (2 * c_len c))
+      else (ROom, mkC m1 g1 (c_cur c) nx1 (c_len c))
+  | _ => st
+  end.
+Definition concat_gc (n : N) (m : mem) (slen : N) : res * cst :=
+  N.iter n concat_step (ROk, mkC m 0 0 INITIAL_GC_THRESHOLD slen).
+
+(* ---- what the host was asked for: 1 = some request of at least 2 * HOST_T bytes is in the trace, 0 = every request
+   is at most HOST_T / 2, 2 = in between / not modelled (the tie then accepts either) *)
+Definition HOST_T : N := 65536.
+Fixpoint max_host (t : list evt) : N :=
+  match t with [] => 0%N | EHost n :: r => N.max n (max_host r) | _ :: r => max_host r end.
+Definition host_class (t : list evt) : Z :=
+  if (2 * HOST_T <=? max_host t)%N then 1 else if (max_host t <=? HOST_T / 2)%N then 0 else 2.
 
 (* one case: operation, size argument, limit, host capacity, heap + manual bytes in use when the operation starts.
-   Result: [kind; bytes charged by the operation] *)
+   Result: [kind; bytes charged by the operation; host class] *)
 Definition hl_run1 (cap : N) (o : hop) (n : Z) (limit used0 : N) : list Z :=
   let m := mkMem used0 0 limit in
-  let out (r : res) (m' : mem) := [res_code r; Z.of_N (held m') - Z.of_N (held m)] in
+  let out (r : res) (m' : mem) (hc : Z) := [res_code r; Z.of_N (held m') - Z.of_N (held m); hc] in
+  let lit (e : N) := mkVec 1 1 (SZ_VEC + e) e in
+  let pushes (k : N) (m0 : mem) (v0 : vecst) :=
+    match push_fast PUSH_BOUND k cap m0 v0 with
+    | (0%N, (r, m', _)) => out r m' 2
+    | _ => [99; 0; 2]                                  (* bound exhausted: never equal to an observation *)
+    end in
   match o with
-  | OArray e => let '(r, m', _) := op_array cap e m n in out r m'
-  | OVecPush e => let '(r, m', _) := push_many_n (Z.to_N n) cap m (mkVec 1 1 (SZ_VEC + e) e) in out r m'
-  | OVecReserve e => let '(r, m', _, _) := op_vec_reserve cap m (mkVec 1 1 (SZ_VEC + e) e) n in out r m'
-  | OManual => let '(r, m', _) := op_manual m n in out r m'
-  | OManualReuse => let '(r, m') := manual_reuse m n in out r m'
-  | OBytes => let '(r, m', _) := op_bytes cap m n in out r m'
-  | ORepeat sl => if n =? 1 then [0; 0] else let '(r, m', _) := op_repeat cap m sl n in out r m'
-  | OPad sc sb pb => let '(r, m', _) := op_pad cap m sc sb pb n in out r m'
-  | OConcatDouble sl => let '(r, m') := concat_double (Z.to_nat n) m sl in out r m'
+  | OArray e => let '(r, m', t) := op_array cap e m n in out r m' (host_class t)
+  | OVecPush e => pushes (Z.to_N n) m (lit e)
+  | OVecReserve e => let '(r, m', _, t) := op_vec_reserve cap m (lit e) n in out r m' 2
+  | OVecFill e rsv =>
+      match op_vec_reserve cap m (lit e) rsv with
+      | (ROk, m1, v1, _) => pushes (Z.to_N n) m1 v1
+      | (r, m1, _, _) => out r m1 2
+      end
+  | OManual => let '(r, m', t) := op_manual m n in out r m' (host_class t)
+  | OManualReuse => let '(r, m') := manual_reuse m n in out r m' 2
+  | OBytes => let '(r, m', t) := op_bytes cap m n in out r m' (host_class t)
+  | ORepeat sl => if n =? 1 then [0; 0; 0] else let '(r, m', t) := op_repeat cap m sl n in out r m' (host_class t)
+  | OPad sc sb pb => let '(r, m', t) := op_pad cap m sc sb pb n in out r m' (host_class t)
+  | OProductSq u => let '(r, m') := product_sq cap m u n in out r m' 2
+  | OConcatDouble sl => let '(r, c) := concat_gc (Z.to_N n) m sl in out r (c_mem c) 2
+  | OLoop allocs => let '(r, m', _) := loop_run (Z.to_N n) cap allocs m (lit 8%N) in out r m' 2
   end.
 
 Inductive hq := QOp (o : hop) (n : Z) (limit cap_lo cap_hi used0 : N).
@@ -52,5 +154,10 @@ Inductive hq := QOp (o : hop) (n : Z) (limit cap_lo cap_hi used0 : N).
    process already maps): both predictions are acceptable *)
 Definition hl_obs (q : hq) : list Z * list Z :=
   match q with QOp o n limit lo hi used0 => (hl_run1 lo o n limit used0, hl_run1 hi o n limit used0) end.
-Definition hl_eqb (m o : list Z * list Z) : bool :=
-  list_eqb Z.eqb (fst m) (fst o) || list_eqb Z.eqb (snd m) (fst o).
+(* kind and charge exactly; host class exactly unless the model says 2 *)
+Definition obs3_eqb (m o : list Z) : bool :=
+  match m, o with
+  | [k; c; h], [k'; c'; h'] => Z.eqb k k' && Z.eqb c c' && (Z.eqb h 2 || Z.eqb h h')
+  | _, _ => false
+  end.
+Definition hl_eqb (m o : list Z * list Z) : bool := obs3_eqb (fst m) (fst o) || obs3_eqb (snd m) (fst o).
